@@ -71,6 +71,7 @@ G0 == [ sc      |-> "none",
         txins   |-> <<>>,      \* client -> keys it INSERTed since BEGIN (or in the current autocommit statement)
         everins |-> <<>>,      \* client -> keys it has ever INSERTed through its current handle (KF-MAST-3)
         leakable|-> {},        \* keys INSERTed by a transaction that was rolled back or whose commit failed (KF-MAST-1)
+        leakst  |-> {},        \* ... and those INSERT statements themselves
         ord     |-> <<>>,      \* <<a, b>> (concrete key literals) -> recorded result of Key.Order(a, b)
         cfail   |-> {},        \* clients whose last COMMIT failed (SQLite rolled the transaction back)
         fault   |-> {}         \* clients with an active fault / crash plan
@@ -122,13 +123,22 @@ OnlyStale(c, rows, expected) == expected \subseteq rows /\ rows # expected /\ \A
 (* exactly the expected rows with every empty text (value or key) read as NULL.                              *)
 ET(v) == IF v = "t:" THEN R!NullV ELSE v
 NormET(rows) == {<<ET(r[1]), [cc \in DOMAIN r[2] |-> ET(r[2][cc])]>> : r \in rows}
-Suffix(c, rows, expected) == IF OnlyLeaked(rows, expected) THEN "_LeakedInsert"
+(* ... or, where a rolled-back INSERT hit a key that the view also holds from elsewhere: the table is, key by key,  *)
+(* what Ideal gives when some of the rolled-back INSERTs of that key are counted in                                *)
+RowsOfKey(rs, k) == {r \in rs : r[1] = k}
+LeakExplains(rows, facts, k) ==
+  LET Lk == {x \in g.leakst : x.key = k} IN
+  Cardinality(Lk) <= 5 /\ \E L \in SUBSET Lk : L # {} /\ RowsOfKey(rows, k) = RowsOfKey(Ideal({f \in facts : f.key = k} \cup L), k)
+LeakedOverrides(rows, expected, facts) ==
+  LET DK == {r[1] : r \in (rows \ expected) \cup (expected \ rows)} IN
+  DK # {} /\ \A k \in DK : LeakExplains(rows, facts, k)
+Suffix(c, rows, expected, facts) == IF OnlyLeaked(rows, expected) \/ LeakedOverrides(rows, expected, facts) THEN "_LeakedInsert"
                              ELSE IF OnlyStale(c, rows, expected) THEN "_StaleCachedInsert"
                              ELSE IF rows = NormET(expected) THEN "_EmptyTextReadsNull" ELSE ""
 CheckRows(e, c, facts, rows, where) ==
   LET ideal == Ideal(facts) IN
   IF rows # ideal
-  THEN VAll(IdealProps, "_RowsAreIdeal" \o Suffix(c, rows, ideal), e,
+  THEN VAll(IdealProps, "_RowsAreIdeal" \o Suffix(c, rows, ideal, facts), e,
             [where |-> where, observed |-> rows, ideal |-> ideal, facts |-> facts])
   ELSE {}
 
@@ -252,6 +262,7 @@ OnStmt(e) ==
                       !.everins = IF acc /\ e.kind = "ins" THEN Put(@, c, Get(@, c, {}) \cup {e.key}) ELSE @,
                       \* a failed autocommit INSERT is rolled back by SQLite
                       !.leakable = @ \cup leak0,
+                      !.leakst = @ \cup (IF leak0 # {} THEN {f} ELSE {}),
                       \* unless told to keep it, the harness sets write_time to the statement's wt first
                       !.attr = IF Has(e, "keep_wt") THEN @ ELSE Put(@, c, [a0 EXCEPT !.write_time = e.wt]),
                       !.laststmt = IF acc THEN Put(@, c, f) ELSE @,
@@ -286,7 +297,7 @@ OnRows(e) ==
      ELSE [g2 |-> g1,
            v |-> CheckRows(e, c, Get(g.cfacts, c, {}), rows, "rows")
                  \cup (IF Has(e, "same") /\ rows # Get(g.lastrows, c, {})
-                       THEN V(e.same, e.same \o "_RowsUnchanged" \o Suffix(c, rows, Get(g.lastrows, c, {})), e, [before |-> Get(g.lastrows, c, {}), after |-> rows]) ELSE {})
+                       THEN V(e.same, e.same \o "_RowsUnchanged" \o Suffix(c, rows, Get(g.lastrows, c, {}), Get(g.cfacts, c, {})), e, [before |-> Get(g.lastrows, c, {}), after |-> rows]) ELSE {})
                  \* same_as_begin = 1: after ROLLBACK; = 2: after a COMMIT, if that COMMIT failed
                  \cup (IF Has(e, "same_as_begin") /\ (e.same_as_begin = 1 \/ c \in g.cfail) /\ rows # Get(g.csnaprows, c, {})
                        THEN V("C05", IF OnlyLeaked(rows, Get(g.csnaprows, c, {})) THEN "C05_RollbackRestores_LeakedInsert" ELSE "C05_RollbackRestores",
@@ -306,7 +317,8 @@ OnCommit(e) ==
       \* a failed COMMIT is rolled back by SQLite (xRollback): the view returns to the BEGIN snapshot
       g1 == IF e.outcome = "ok" THEN Finalize([g EXCEPT !.ctx = Put(@, c, FALSE), !.cfail = @ \ {c}], c, Get(g.cpend, c, {}))
             ELSE [g EXCEPT !.ctx = Put(@, c, FALSE), !.cfacts = Put(@, c, Get(g.csnap, c, {})), !.cpend = Put(@, c, {}),
-                           !.fresh = Put(@, c, <<>>), !.cfail = @ \cup {c}, !.leakable = @ \cup Get(g.txins, c, {})]
+                           !.fresh = Put(@, c, <<>>), !.cfail = @ \cup {c}, !.leakable = @ \cup Get(g.txins, c, {}),
+                           !.leakst = @ \cup {x \in Get(g.cpend, c, {}) : x.kind = "ins"}]
       g2 == IF e.outcome = "ok" /\ Has(e, "version") THEN [g1 EXCEPT !.cver = Put(@, c, Range(e.version))] ELSE g1
       v1 == IF e.outcome = "ok" /\ Get(g.txputs, c, 0) > 1
             THEN V("C05", "C05_CommitIsOneVersion", e, [versions |-> Get(g.txputs, c, 0)]) ELSE {}
@@ -319,7 +331,8 @@ OnRollback(e) ==
   LET c == e.c
       g1 == IF e.outcome = "ok"
             THEN [g EXCEPT !.ctx = Put(@, c, FALSE), !.cfacts = Put(@, c, Get(g.csnap, c, {})), !.cpend = Put(@, c, {}),
-                           !.leakable = @ \cup Get(g.txins, c, {})]
+                           !.leakable = @ \cup Get(g.txins, c, {}),
+                           !.leakst = @ \cup {x \in Get(g.cpend, c, {}) : x.kind = "ins"}]
             ELSE g
       v1 == IF Get(g.txputs, c, 0) > 0 \/ e.dm > 0
             THEN V("C05", "C05_RollbackLeavesBucket", e, [versions |-> Get(g.txputs, c, 0), mutations |-> e.dm]) ELSE {}
